@@ -52,6 +52,11 @@ pub enum Expr {
     /// unordered group: the members are requested concurrently inside
     /// start/end_unordered_callee_group; the value is their sum
     Group(Vec<Node>),
+    /// like Group, but every member is requested from its own spawned task holding a clone of the
+    /// tracked engine (true concurrency inside an executor); oracle-only scenarios, not in the model
+    Spawn(Vec<Node>),
+    /// sleep that many milliseconds, then evaluate (to stage interleavings); oracle-only
+    Delay(u64, Box<Expr>),
 }
 impl Expr {
     pub fn coq(&self) -> String {
@@ -63,7 +68,8 @@ impl Expr {
             Expr::Mod(a, m) => format!("(EMod {} ({m}))", a.coq()),
             Expr::Lt(a, b) => format!("(ELt {} {})", a.coq(), b.coq()),
             Expr::If(c, a, b) => format!("(EIf {} {} {})", c.coq(), a.coq(), b.coq()),
-            Expr::Group(ns) => format!("(EGroup [{}])", ns.iter().map(|n| n.coq()).collect::<Vec<_>>().join("; ")),
+            Expr::Group(ns) | Expr::Spawn(ns) => format!("(EGroup [{}])", ns.iter().map(|n| n.coq()).collect::<Vec<_>>().join("; ")),
+            Expr::Delay(_, e) => e.coq(),
         }
     }
     pub fn may_read(&self, out: &mut Vec<Node>) {
@@ -73,7 +79,8 @@ impl Expr {
             Expr::Add(a, b) | Expr::Mul(a, b) | Expr::Lt(a, b) => { a.may_read(out); b.may_read(out); }
             Expr::Mod(a, _) => a.may_read(out),
             Expr::If(c, a, b) => { c.may_read(out); a.may_read(out); b.may_read(out); }
-            Expr::Group(ns) => out.extend(ns.iter().copied()),
+            Expr::Group(ns) | Expr::Spawn(ns) => out.extend(ns.iter().copied()),
+            Expr::Delay(_, e) => e.may_read(out),
         }
     }
 }
@@ -170,6 +177,21 @@ pub async fn query_node<C: Config>(engine: &TrackedEngine<C>, n: Node) -> i64 {
 fn eval<'a, C: Config>(w: &'a World, me: Node, e: &'a Expr, engine: &'a TrackedEngine<C>) -> BoxFut<'a, i64> {
     Box::pin(async move {
         match e {
+            Expr::Delay(ms, inner) => { tokio::time::sleep(std::time::Duration::from_millis(*ms)).await; eval(w, me, inner, engine).await }
+            Expr::Spawn(ns) => {
+                let mut hs = Vec::new();
+                for n in ns { let e2 = engine.clone(); let n = *n; hs.push((n, tokio::spawn(async move { query_node(&e2, n).await }))); }
+                let mut s = 0i64;
+                let mut panic = None;
+                for (n, h) in hs {
+                    match h.await {
+                        Ok(v) => { w.log.lock().unwrap().push(Event::Read { by: me, dep: n, value: v }); s = s.wrapping_add(v); }
+                        Err(e) => { if panic.is_none() { panic = Some(e); } }
+                    }
+                }
+                if let Some(e) = panic { std::panic::resume_unwind(e.into_panic()); }
+                s
+            }
             Expr::Const(z) => *z,
             Expr::Read(n) => {
                 let v = query_node(engine, *n).await;
@@ -326,6 +348,7 @@ fn ev(p: &Program, i: &HashMap<u32, i64>, x: &HashMap<u32, i64>, e: &Expr, d: &m
         Expr::Mod(a, m) => ev(p, i, x, a, d)?.rem_euclid(*m),
         Expr::Lt(a, b) => (ev(p, i, x, a, d)? < ev(p, i, x, b, d)?) as i64,
         Expr::If(c, a, b) => if ev(p, i, x, c, d)? != 0 { ev(p, i, x, a, d)? } else { ev(p, i, x, b, d)? },
-        Expr::Group(ns) => { let mut s = 0i64; for n in ns { s = s.wrapping_add(oracle_in(p, i, x, *n, d)?); } s }
+        Expr::Group(ns) | Expr::Spawn(ns) => { let mut s = 0i64; for n in ns { s = s.wrapping_add(oracle_in(p, i, x, *n, d)?); } s }
+        Expr::Delay(_, e) => ev(p, i, x, e, d)?,
     })
 }
